@@ -1131,4 +1131,163 @@ theorem postParse_capture_sys (cfg : Cfg) (st : St) (tee : Bool) (hm : cfg.metho
     · simp [W.buf, List.getD_eq_getElem?_getD]
     · simp [W.buf, List.getD_eq_getElem?_getD]
 
+theorem getMulticapture_fd (w : W) (t0 t1 t2 : Nat) (hos : w.os.Std3)
+    (h0 : w.os.fd 0 = some t0) (h1 : w.os.fd 1 = some t1) (h2 : w.os.fd 2 = some t2) :
+    ∃ (wc : W) (si pi so po se pe : Nat),
+      getMulticapture w .fd = (wc,
+        { in_ := some (.fd (fdCap 0 si pi w.py.nextOid ⟨0, some w.py.stdin, .dontRead (w.py.nextOid + 1), .initialized⟩ .initialized)),
+          out := some (.fd (fdCap 1 so po (w.py.nextOid + 2) ⟨1, some w.py.stdout, .file (w.py.nextOid + 2) po, .initialized⟩ .initialized)),
+          err := some (.fd (fdCap 2 se pe (w.py.nextOid + 3) ⟨2, some w.py.stderr, .file (w.py.nextOid + 3) pe, .initialized⟩ .initialized)) }) ∧
+      3 ≤ si ∧ 3 ≤ pi ∧ 3 ≤ so ∧ 3 ≤ po ∧ 3 ≤ se ∧ 3 ≤ pe ∧
+      wc.os.fd 0 = some t0 ∧ wc.os.fd 1 = some t1 ∧ wc.os.fd 2 = some t2 ∧
+      wc.os.fd si = some t0 ∧ wc.os.fd so = some t1 ∧ wc.os.fd se = some t2 ∧
+      wc.os.fd pi = some w.os.files.length ∧ wc.os.fd po = some (w.os.files.length + 1) ∧ wc.os.fd pe = some (w.os.files.length + 2) ∧
+      (∀ f, wc.os.file f = w.os.file f) ∧ wc.os.count = w.os.count + 6 ∧ wc.fault = w.fault ∧
+      wc.py = { w.py with nextOid := w.py.nextOid + 4 } := by
+  -- in_
+  have A := fdInitW_spec w 0 t0 hos
+  have eA := fdInit_in w t0 h0
+  generalize hwa : ({ fdInitW w 0 t0 with py := { w.py with nextOid := w.py.nextOid + 2 } } : W) = wa at eA
+  have hwa_os : wa.os = (fdInitW w 0 t0).os := by rw [← hwa]
+  have hwa_py : wa.py = { w.py with nextOid := w.py.nextOid + 2 } := by rw [← hwa]
+  have hwa_f : wa.fault = w.fault := by rw [← hwa]; rfl
+  obtain ⟨a1, a2, a3, a4, a5, a6, a7, a8, a9⟩ := A
+  rw [← hwa_os] at a4 a5 a6 a7 a8
+  -- out
+  have h1a : wa.os.fd 1 = some t1 := by rw [a5]; grind
+  have B := fdInitW_spec wa 1 t1 a4
+  have eB := fdInit_out wa 1 t1 h1a (Or.inl rfl)
+  obtain ⟨b1, b2, b3, b4, b5, b6, b7, b8, b9⟩ := B
+  -- err
+  have h2b : (fdInitW wa 1 t1).os.fd 2 = some t2 := by rw [b5, a5]; grind
+  have C := fdInitW_spec (fdInitW wa 1 t1) 2 t2 b4
+  have eC := fdInit_out (fdInitW wa 1 t1) 2 t2 h2b (Or.inr rfl)
+  obtain ⟨c1, c2, c3, c4, c5, c6, c7, c8, c9⟩ := C
+  -- names
+  generalize hsi : w.os.free = si at *
+  generalize hpi : (w.os.setFd si (some t0)).free = pi at *
+  generalize hso : wa.os.free = so at *
+  generalize hpo : (wa.os.setFd so (some t1)).free = po at *
+  generalize hwb : fdInitW wa 1 t1 = wb at *
+  generalize hse : wb.os.free = se at *
+  generalize hpe : (wb.os.setFd se (some t2)).free = pe at *
+  generalize hwc : fdInitW wb 2 t2 = wc at *
+  have ne_of : ∀ {o : OS} {a b x : Nat}, o.fd a = none → o.fd b = some x → a ≠ b := by
+    intro o a b x ha hb e; rw [e, hb] at ha; cases ha
+  -- descriptors of the first construction in `wa`
+  have wa_pi : wa.os.fd pi = some w.os.files.length := by rw [a5]; simp
+  have wa_si : wa.os.fd si = some t0 := by rw [a5, if_neg a3]; simp
+  have wa_0 : wa.os.fd 0 = some t0 := by rw [a5, if_neg (by omega), if_neg (by omega)]; exact h0
+  have wa_2 : wa.os.fd 2 = some t2 := by rw [a5, if_neg (by omega), if_neg (by omega)]; exact h2
+  have f_so : wa.os.fd so = none := by rw [← hso]; exact wa.os.fd_free
+  have f_po : (wa.os.setFd so (some t1)).fd po = none := by rw [← hpo]; exact (wa.os.setFd so (some t1)).fd_free
+  have f_po' : wa.os.fd po = none := by rw [OS.fd_setFd, if_neg (Ne.symm b3)] at f_po; exact f_po
+  -- in `wb`
+  have wb_fd : ∀ j, j ≠ po → j ≠ so → wb.os.fd j = wa.os.fd j := by intro j x y; rw [b5, if_neg x, if_neg y]
+  have wb_pi : wb.os.fd pi = some w.os.files.length := by rw [wb_fd _ (ne_of f_po' wa_pi).symm (ne_of f_so wa_pi).symm, wa_pi]
+  have wb_si : wb.os.fd si = some t0 := by rw [wb_fd _ (ne_of f_po' wa_si).symm (ne_of f_so wa_si).symm, wa_si]
+  have wb_0 : wb.os.fd 0 = some t0 := by rw [wb_fd _ (by omega) (by omega), wa_0]
+  have wb_1 : wb.os.fd 1 = some t1 := by rw [wb_fd _ (by omega) (by omega), h1a]
+  have wb_so : wb.os.fd so = some t1 := by rw [b5, if_neg b3]; simp
+  have wb_po : wb.os.fd po = some wa.os.files.length := by rw [b5]; simp
+  have f_se : wb.os.fd se = none := by rw [← hse]; exact wb.os.fd_free
+  have f_pe : (wb.os.setFd se (some t2)).fd pe = none := by rw [← hpe]; exact (wb.os.setFd se (some t2)).fd_free
+  have f_pe' : wb.os.fd pe = none := by rw [OS.fd_setFd, if_neg (Ne.symm c3)] at f_pe; exact f_pe
+  have wc_fd : ∀ j, j ≠ pe → j ≠ se → wc.os.fd j = wb.os.fd j := by intro j x y; rw [c5, if_neg x, if_neg y]
+  refine ⟨wc, si, pi, so, po, se, pe, ?_, a1, a2, b1, b2, c1, c2, ?_⟩
+  · simp only [getMulticapture, ctorsOf_fd, mkCap, eA, eB, eC]
+    have o1 : wa.py.nextOid = w.py.nextOid + 2 := by rw [hwa_py]
+    have o2 : wb.py.nextOid = w.py.nextOid + 3 := by rw [← hwb]; simp [fdInitW, hwa_py]
+    have g1 : wa.py.getStd 1 = w.py.stdout := by rw [hwa_py]; rfl
+    have g2 : wb.py.getStd 2 = w.py.stderr := by rw [← hwb]; simp [fdInitW, hwa_py, Py.getStd]
+    simp [o1, o2, g1, g2]
+  · refine ⟨?_, ?_, ?_, ?_, ?_, ?_, ?_, ?_, ?_, ?_, ?_, ?_, ?_⟩
+    · rw [wc_fd _ (by omega) (by omega), wb_0]
+    · rw [wc_fd _ (by omega) (by omega), wb_1]
+    · rw [wc_fd _ (by omega) (by omega), h2b]
+    · rw [wc_fd _ (ne_of f_pe' wb_si).symm (ne_of f_se wb_si).symm, wb_si]
+    · rw [wc_fd _ (ne_of f_pe' wb_so).symm (ne_of f_se wb_so).symm, wb_so]
+    · rw [c5, if_neg c3]; simp
+    · rw [wc_fd _ (ne_of f_pe' wb_pi).symm (ne_of f_se wb_pi).symm, wb_pi]
+    · rw [wc_fd _ (ne_of f_pe' wb_po).symm (ne_of f_se wb_po).symm, wb_po, a7]
+    · rw [c5]; simp [b7, a7]
+    · intro f; rw [c6, b6, a6]
+    · rw [c8, b8, a8]
+    · rw [c9, b9, hwa_f]
+    · rw [← hwc, ← hwb]; simp [fdInitW, hwa_py]
+
+
+theorem postParse_capture_fd (cfg : Cfg) (st : St) (hm : cfg.method = .fd) (hw : StdW st.w)
+    (t0 t1 t2 : Nat) (h0 : st.w.os.fd 0 = some t0) (h1 : st.w.os.fd 1 = some t1) (h2 : st.w.os.fd 2 = some t2) :
+    ∃ p : FdP, FdReady (step cfg st (.postParse "capture")) p .started ∧
+      p.t0 = t0 ∧ p.t1 = t1 ∧ p.t2 = t2 ∧
+      p.g0 = st.w.os.files.length ∧ p.g1 = st.w.os.files.length + 1 ∧ p.g2 = st.w.os.files.length + 2 ∧
+      (∀ f, (step cfg st (.postParse "capture")).w.os.file f = st.w.os.file f) ∧
+      (step cfg st (.postParse "capture")).w.os.count = st.w.os.count + 6 ∧
+      (step cfg st (.postParse "capture")).secs = st.secs ∧
+      (step cfg st (.postParse "capture")).tasks = st.tasks ∧
+      (step cfg st (.postParse "capture")).collectFailed = st.collectFailed ∧
+      miscOf (step cfg st (.postParse "capture")).w.py = miscOf (preCapture cfg st).w.py := by
+  rw [step_postParse_capture]
+  obtain ⟨hos, hso, hse, hnf⟩ := hw
+  have k1 : (preCapture cfg st).cm = some ⟨.fd, none⟩ := by simp [preCapture, hm]
+  have k2 : (preCapture cfg st).w.os = st.w.os := rfl
+  have k3 : (preCapture cfg st).w.py.stdin = st.w.py.stdin := rfl
+  have k4 : (preCapture cfg st).w.py.stdout = .orig 1 := hso
+  have k5 : (preCapture cfg st).w.py.stderr = .orig 2 := hse
+  have k6 : (preCapture cfg st).w.fault = false := hnf
+  have k7 : (preCapture cfg st).secs = st.secs := rfl
+  have k8 : (preCapture cfg st).tasks = st.tasks := rfl
+  have k9 : (preCapture cfg st).collectFailed = st.collectFailed := rfl
+  generalize preCapture cfg st = st1 at *
+  rw [← k2] at hos h0 h1 h2
+  obtain ⟨wc, si, pi, so, po, se, pe, eG, g1, g2, g3, g4, g5, g6, c0, c1, c2, csi, cso, cse, cpi, cpo, cpe, cfile, ccount, cfault, cpy⟩ :=
+    getMulticapture_fd st1.w t0 t1 t2 hos h0 h1 h2
+  rw [k4, k5] at eG
+  rw [← k2]
+  generalize hn : st1.w.os.files.length = n at *
+  generalize hoid : st1.w.py.nextOid = oid at *
+  refine ⟨⟨si, pi, oid, oid + 1, so, po, oid + 2, se, pe, oid + 3, t0, t1, t2, n, n + 1, n + 2, st1.w.py.stdin⟩, ?_⟩
+  -- the world after start ×3 and suspend ×2
+  have e : runCalls 0 "" id st1 [.stop, .start, .suspend false] =
+      { st1 with
+          w := { wc with os := ((((wc.os.setFd 0 (some n)).setFd 1 (some (n + 1))).setFd 2 (some (n + 2))).setFd 1 (some t1)).setFd 2 (some t2)
+                         py := { wc.py with stdin := .dontRead (oid + 1) } }
+          cm := some ⟨.fd, some (fdMC ⟨si, pi, oid, oid + 1, so, po, oid + 2, se, pe, oid + 3, t0, t1, t2, n, n + 1, n + 2, st1.w.py.stdin⟩ .started)⟩ } := by
+    have d1 : (wc.os.setFd 0 (some n)).fd po = some (n + 1) := by rw [OS.fd_setFd, if_neg (by omega)]; exact cpo
+    have d2 : ((wc.os.setFd 0 (some n)).setFd 1 (some (n + 1))).fd pe = some (n + 2) := by
+      rw [OS.fd_setFd, if_neg (by omega), OS.fd_setFd, if_neg (by omega)]; exact cpe
+    have d3 : (((wc.os.setFd 0 (some n)).setFd 1 (some (n + 1))).setFd 2 (some (n + 2))).fd so = some t1 := by
+      rw [OS.fd_setFd, if_neg (by omega), OS.fd_setFd, if_neg (by omega), OS.fd_setFd, if_neg (by omega)]; exact cso
+    have d4 : ((((wc.os.setFd 0 (some n)).setFd 1 (some (n + 1))).setFd 2 (some (n + 2))).setFd 1 (some t1)).fd se = some t2 := by
+      rw [OS.fd_setFd, if_neg (by omega), OS.fd_setFd, if_neg (by omega), OS.fd_setFd, if_neg (by omega), OS.fd_setFd, if_neg (by omega)]; exact cse
+    simp only [runCalls, List.foldl_cons, List.foldl_nil, runCall, withCM, k1, CM.stopCapturing, CM.startCapturing, eG]
+    simp [MC.startCapturing, optCap, Cap.start, FdCap.start_init, OS.dup2_of_some _ _ _ _ cpi, OS.dup2_of_some _ _ _ _ d1,
+      OS.dup2_of_some _ _ _ _ d2, CM.suspend, MC.suspendCapturing, Cap.suspend, FdCap.suspend_started,
+      OS.dup2_of_some _ _ _ _ d3, OS.dup2_of_some _ _ _ _ d4, Py.setStd, fdMC, cpy, k4, k5, k3]
+  rw [e]
+  refine ⟨⟨rfl, Or.inl rfl, ⟨g1, g2, g3, g4, g5, g6⟩, ?_, ?_, ?_, ?_, ?_, ?_, ?_, ?_, ?_, ?_, ?_, ?_, ?_, ?_, by simp, ?_⟩,
+    rfl, rfl, rfl, rfl, rfl, rfl, ?_, ?_, k7, k8, k9, ?_⟩
+  · simp
+  · simp
+  · simp only []; rw [OS.fd_setFd, if_neg (by omega), OS.fd_setFd, if_neg (by omega), OS.fd_setFd, if_neg (by omega), OS.fd_setFd, if_neg (by omega), OS.fd_setFd, if_neg (by omega)]; exact cso
+  · simp only []; rw [OS.fd_setFd, if_neg (by omega), OS.fd_setFd, if_neg (by omega), OS.fd_setFd, if_neg (by omega), OS.fd_setFd, if_neg (by omega), OS.fd_setFd, if_neg (by omega)]; exact cse
+  · simp only []; rw [OS.fd_setFd, if_neg (by omega), OS.fd_setFd, if_neg (by omega), OS.fd_setFd, if_neg (by omega), OS.fd_setFd, if_neg (by omega), OS.fd_setFd, if_neg (by omega)]; exact csi
+  · simp only []; rw [OS.fd_setFd, if_neg (by omega), OS.fd_setFd, if_neg (by omega), OS.fd_setFd, if_neg (by omega), OS.fd_setFd, if_neg (by omega), OS.fd_setFd, if_neg (by omega)]; exact cpo
+  · simp only []; rw [OS.fd_setFd, if_neg (by omega), OS.fd_setFd, if_neg (by omega), OS.fd_setFd, if_neg (by omega), OS.fd_setFd, if_neg (by omega), OS.fd_setFd, if_neg (by omega)]; exact cpe
+  · simp only []; rw [OS.fd_setFd, if_neg (by omega), OS.fd_setFd, if_neg (by omega), OS.fd_setFd, if_neg (by omega), OS.fd_setFd, if_neg (by omega), OS.fd_setFd, if_neg (by omega)]; exact cpi
+  · simp
+  · simp
+  · simp [cpy]; exact k4
+  · simp [cpy]; exact k5
+  · simp only [OS.file_setFd, cfile]; simp only [OS.file, List.getD_eq_getElem?_getD]; rw [List.getElem?_eq_none (by omega)]; rfl
+  · simp only [OS.file_setFd, cfile]; simp only [OS.file, List.getD_eq_getElem?_getD]; rw [List.getElem?_eq_none (by omega)]; rfl
+  · simp [cfault]; exact k6
+  · intro f; simp only [OS.file_setFd, cfile]
+  · simp only []
+    rw [OS.count_setFd_some _ 2 (n + 2) _ (by simp), OS.count_setFd_some _ 1 (n + 1) _ (by simp),
+      OS.count_setFd_some _ 2 t2 _ (by simp; exact c2), OS.count_setFd_some _ 1 t1 _ (by simp; exact c1),
+      OS.count_setFd_some _ 0 t0 _ c0, ccount]
+  · simp [miscOf, cpy, k4, k5]
+
 end Pytask.Capture
